@@ -79,13 +79,21 @@ func c10Setup(rc *RunCtx) simrt.Config {
 
 // vandalize rewrites every field of m in place.
 func vandalize(m *dns.Msg, salt int) {
-	m.Id ^= 0xffff
-	m.Rcode = (m.Rcode + 3) % 6
 	m.Authoritative = !m.Authoritative
-	m.Truncated = true
-	for i := range m.Question {
-		m.Question[i].Name = "vandal."
-		m.Question[i].Qtype = 99
+	if salt%4 < 2 {
+		// sometimes the rewritten message stays something a cache would accept
+		// (no TC, rcode NOERROR) ...
+		m.Rcode = (m.Rcode + 3) % 6
+		m.Truncated = true
+	}
+	if salt%2 == 1 {
+		// ... and sometimes the question and the ID are left alone: a plugin that
+		// rewrites only the records leaves a message that still "answers the question"
+		m.Id ^= 0xffff
+		for i := range m.Question {
+			m.Question[i].Name = "vandal."
+			m.Question[i].Qtype = 99
+		}
 	}
 	for _, s := range [][]dns.RR{m.Answer, m.Ns, m.Extra} {
 		for _, rr := range s {
@@ -168,6 +176,18 @@ func c10Main(rc *RunCtx) {
 	origin := execFunc(func(ctx context.Context, qc *query_context.Context) error {
 		if qc.R() != nil {
 			return nil
+		}
+		if ctx.Value(obsKey{}) == nil {
+			// the lazy cache's background refresh: it may fail or be slow, so that
+			// the stale entry keeps being served for a while
+			switch simrt.Choose(4) {
+			case 0:
+				simrt.Fault("refresh_fails")
+				return fmt.Errorf("scripted refresh failure")
+			case 1:
+				simrt.Fault("refresh_slow")
+				simrt.Sleep(0, time.Duration(1+simrt.Choose(4))*time.Second)
+			}
 		}
 		o := obsOf(ctx)
 		ans := genAnswer(rc.R, qc.Q(), ttls, false)
